@@ -1039,6 +1039,9 @@ func cellOf(v ssa.Value) *ssa.Alloc {
 		case *ssa.MakeInterface:
 			v = x.X
 			continue
+		case *ssa.ChangeInterface:
+			v = x.X
+			continue
 		}
 		break
 	}
